@@ -483,7 +483,7 @@ def c16(ctx):
     res.rule = "one case = one batch scenario (callers, scripts, batch size, delay); distinct by MD5 of these; non-trivial if some call failed or panicked; evaluations = callers judged"
     with ctx:
         quick = ctx.tier == "quick" or ctx.budget_s
-        runs = run_sharded(ctx, "c16", 8 if ctx.tier == "quick" else 16, lambda i: ["-seed", str(ctx.seed * 1000 + i), "-n", "300" if quick else "6000"], ctx.budget_s or (900 if ctx.tier == "quick" else 3000))
+        runs = run_sharded(ctx, "c16", 8 if ctx.tier == "quick" else 16, lambda i: ["-seed", str(ctx.seed * 1000 + i), "-n", "300" if quick else "6000", "-dir", "{dir}"], ctx.budget_s or (900 if ctx.tier == "quick" else 3000))
         for r in runs:
             absorb(res, "C16", *r)
     return res
